@@ -68,9 +68,12 @@ func (r *Run) Sample(s interface{}) {
 }
 
 func (r *Run) Violate(v Violation) {
-	if len(r.Viol) < 50 {
+	// keep the first few failing inputs of every signature (a run may hit one defect thousands of times)
+	k := "viol:" + v.Property + ":" + v.Signature
+	if r.Counts[k] < 4 && len(r.Viol) < 200 {
 		r.Viol = append(r.Viol, v)
 	}
+	r.Counts[k]++
 	r.Counts["oracle_violations:"+v.Property]++
 }
 
